@@ -353,7 +353,7 @@ class gMonth(BuiltinType):
     @check_no_collection
     def xmlvalue(self, value):
         month, tzinfo = value
-        return "--%d%s" % (month, _unparse_timezone(tzinfo))
+        return "--%02d%s" % (month, _unparse_timezone(tzinfo))
 
     @treat_whitespace("collapse")
     def pythonvalue(self, value):
